@@ -813,6 +813,16 @@ def run_world_part(ctx):
         g = wc.Gen(rng, mix, **gen)
         files.append(("random-world:%s:%d" % (cid, i), g.run(rng.randint(lo, hi * (3 if ctx.thorough else 1)))))
         per_cfg[cid] = per_cfg.get(cid, 0) + 1
+    # keep every history inside the documented contract: the Lean world model says where a history first leaves it (an unguarded
+    # entry point given a handle that is not valid at that moment, an assignment of a component the entity already has, ...)
+    class _Shim:
+        pass
+    shim = _Shim()
+    shim.drv = ctx.driver()
+    if hasattr(wc.Session, "in_contract"):
+        with cf.ThreadPoolExecutor(max(2, vlib.NPROC - 2)) as ex:
+            files = list(zip([f[0] for f in files], ex.map(lambda f: wc.Session.in_contract(shim, f[1]), files)))
+    truncated = getattr(shim, "truncated", 0)
     with cf.ThreadPoolExecutor(max(2, vlib.NPROC - 2)) as ex:
         results = list(ex.map(lambda f: run_world(exe, f[1]), files))
     bad = [(name, ops, note) for (name, ops), (_, note) in zip(files, results) if note]
@@ -833,7 +843,7 @@ def run_world_part(ctx):
         ctx.violation(small, "C10 fails on the implementation: world history (%s) aborts / raises a sanitizer report: %s" % (name, note[:500]))
         reported += 1
     ctx.cov(world_histories=len(files), world_history_aborts=len(bad), world_histories_per_generator=per_cfg,
-            lifecycle_reports_not_judged_here=len(life),
+            lifecycle_reports_not_judged_here=len(life), world_histories_truncated_at_contract=truncated,
             lifecycle_report_sample=(life[0][0] + ": " + life[0][2][:200]) if life else None)
     return reported, len(files)
 
